@@ -95,6 +95,18 @@ CHECKS = {
     note="Known finding (not repaired): names containing a double quote do not survive WriteTo/ReadFrom (csv-based reader). Trusted: TLC, the harness's FASTA renderer.",
     technique="TLA+ layout spec + transcribed scanner/read loop, TLC exhaustive small layouts + TLC trace validation of real runs",
     engine="Fai"),
+ "C05": dict(
+    category="exploration", design_ref="DESIGN.md §5 C05",
+    text="Codec.tla is a reference BAM encoder written from the SAM specification (Encode, HeaderBytes, Omitted). Seeded generation by field classes (names 1..254, all CIGAR op types up to 2^28-1 and 65535 ops, odd/even/empty sequences, every aux type incl. empty Z/H/B, record sizes around the 4 KiB inline buffer and above one BGZF block, varied headers, wc/rd 1/2/4). The bytes bam.Writer produced for every record and for the header, and what bam.Reader returns under Omit modes 0/1/2 (records kept until the end of the file, projected with the harness's own decoding), are judged by TLC against the reference: equal bytes except the bin field, equal fields, exactly the omitted parts missing, equal header, io.EOF.",
+    note="Exploration: seeded sampling, no exhaustive claim. Trusted: TLC, the harness's BGZF/BAM framing parser and projection. Header text taken as given (C07 covers it). Defect found and repaired: H values were stored raw instead of as hex digits.",
+    technique="TLA+ reference encoder evaluated by TLC on traces of real bam.Writer / bam.Reader runs",
+    engine="Codec"),
+ "C06": dict(
+    category="exploration", design_ref="DESIGN.md §5 C06",
+    text="Codec.tla holds a reference SAM formatter written from the SAM specification over byte sequences (Line, FlagBytes, Dec, aux text, narrowing of integer aux types). For seeded SAM-expressible records over varied headers TLC checks that the real MarshalSAM line (decimal and hexadecimal flags) is the reference line, that UnmarshalSAM of it formats identically, has the narrowed aux types and equal field values, that the record read back from BAM formats to the same line, and that sam.Reader returns every line (LF/CRLF, with/without header, with/without final newline) as one record followed by io.EOF.",
+    note="Exploration: seeded sampling. Float and >2^31 decimal text computed by the harness with strconv. Defects found and repaired: hex flags, final line without newline, empty Z/H, empty B array, empty H formatted as 00.",
+    technique="TLA+ reference formatter evaluated by TLC on traces of real MarshalSAM / UnmarshalSAM / sam.Reader runs",
+    engine="Codec"),
  "C07": dict(
     category="model_checking", design_ref="DESIGN.md §5 C07",
     text="HeaderP models a header's reference / read-group / program lists under the public edit API (documented latitude only for a reference whose name is already present); HeaderI models the code's slice + name table + per-object owner/id with the three AddReference paths, RemoveReference and SetName, and TLC checks its invariants (ids = indices, ownership, unique names, table = list, release on removal) on the complete state graph of a small instance. Seeded edit histories over up to four headers run on the real sam.Header; after every call the projection of every live header and the text/binary serialisation fixpoints (identical text and binary after re-parse, equal exposed values) are validated by TLC against HeaderP; MergeHeaders links are checked by object identity.",
@@ -141,6 +153,7 @@ HOOK_COMMITS = ["4b6c86a", "f712ea4", "5dd3b6c", "b7bc5fc"]
 ENGINES = [
  dict(name="Merger", path="spec/Merger", serves_properties=["C18"], kind_free_text="TLA+ MergerP/MergerI + TLC MC + trace validation"),
  dict(name="Header", path="spec/Header", serves_properties=["C07"], kind_free_text="TLA+ HeaderP/HeaderI + TLC MC + trace validation"),
+ dict(name="Codec", path="spec/Codec", serves_properties=["C05", "C06"], kind_free_text="TLA+ reference BAM encoder / SAM formatter + TLC trace validation"),
  dict(name="Fai", path="spec/Fai", serves_properties=["C19"], kind_free_text="TLA+ Fai (FaiP/FaiI) + TLC MC + trace validation"),
  dict(name="BinIndex", path="spec/BinIndex", serves_properties=["C04", "C15"], kind_free_text="TLA+ IndexP/IndexI + TLC MC + trace validation"),
  dict(name="Coord", path="spec/Coord", serves_properties=["C16", "C04"], kind_free_text="TLA+ Cigar/Bins + TLC lemmas + trace validation"),
